@@ -299,6 +299,12 @@ class Ctx:
         detail : JSON-serialisable replay payload (scenario, observation, expectation)
         """
         f = self.findings.get(key)
+        if f is None:
+            # a finding key ending in '*' covers every disagreement key with that prefix
+            for fk, fv in self.findings.items():
+                if fk.endswith("*") and key.startswith(fk[:-1]):
+                    f, key = fv, fk
+                    break
         if f is not None and f.get("status") == "known":
             self.known_hits[key] = self.known_hits.get(key, 0) + 1
             if self.known_hits[key] == 1:
